@@ -8,7 +8,9 @@
 (*   hdr  (harness) : for one written file -- the header as a sequence of  *)
 (*                    line classes (drivers/header), what go/ast said      *)
 (*                    (IsGenerated), what `go list -tags` said under the    *)
-(*                    four tag assignments, whether the boilerplate bytes  *)
+(*                    four tag assignments on every platform it was asked  *)
+(*                    on (inclenv: platform -> assignment -> listed; the   *)
+(*                    host always), whether the boilerplate bytes          *)
 (*                    are a contiguous block before the package clause     *)
 (* The pipeline events must be the run the case asked for, otherwise the   *)
 (* trace is not consumed.  For every hdr event TLC prints                  *)
@@ -69,12 +71,12 @@ ExitEv ==
 RuleAgrees(e) ==
   /\ GeneratedByRule(e.lines) = e.gen
   /\ (RuleDecides(e.lines) => /\ VerbatimByRule(e.lines, e.boiler) = e.verbatim
-                              /\ \A n \in AsgNames : IncludedByRule(e.lines, n) = e.incl[n])
+                              /\ \A v \in DOMAIN e.inclenv : \A n \in AsgNames : IncludedByRule(e.lines, n) = e.inclenv[v][n])
 
 HdrEv ==
   /\ IsEvent("hdr") /\ exited
   /\ Ev.file \in written
-  /\ PrintT(<<"OBSV", ToJson([case |-> Ev.case, ok |-> Demands(Ev.expr, Ev.gen, Ev.verbatim, Ev.incl),
+  /\ PrintT(<<"OBSV", ToJson([case |-> Ev.case, ok |-> DemandsEnv(Ev.expr, Ev.gen, Ev.verbatim, Ev.inclenv),
                               rule |-> RuleAgrees(Ev), decides |-> RuleDecides(Ev.lines)])>>)
   /\ UNCHANGED <<expect, cur, stage, written, exited>>
 
